@@ -100,7 +100,7 @@ def space(tier):
     from vf import staticprops
 
     calls = staticprops.gen_calls(staticprops.CALL_ARGS[:6] if tier == "quick" else staticprops.CALL_ARGS)
-    sp = sp + [s for s in calls if tier == "thorough" or s.tag[0] == "vcall"]
+    sp = sp + [s for s in calls if tier == "thorough" or s.tag[0] == "vcall" or (s.tag[3] in ("unused", "unused-after", "rhs") and s.tag[2] in staticprops.CALL_ARGS[:4])]
     # every assignment operator on narrow / wide local, register, pair and predicate targets
     sp = sp + staticprops.gen_assignments(["int8_t", "uint16_t", "int32_t", "uint64_t"] if tier == "quick" else staticprops.T8, ["int8_t", "uint8_t", "int32_t", "uint64_t"] if tier == "quick" else staticprops.T8)
     # folded-away conditional arms (the two layouts collect the remaining operations differently)
